@@ -97,6 +97,27 @@ def check_legacy():
             if got != "é": bad.append(f"S p2={p2} p3={p3}: {got!r}")
             if loads(b"\x02G" + i4(-5) + b"Q", p2, p3) != -5: bad.append("G")
             if loads(b"\x02I" + i4(3) + b"-12" + b"Q", p2, p3) != -12: bad.append("I")
+    # several string opcodes with the SAME payload in one stream: each is decoded by its own rule, whatever was decoded before it
+    def one(op, p2, p3):
+        if op == "M": return raw.decode("latin-1") if p2 else raw
+        if op == "N": return raw if p3 else "é"
+        return "é"
+    for p2 in (False, True):
+        for p3 in (False, True):
+            for a in "MNS":
+                for b_ in "MNS":
+                    data = b"\x02" + a.encode() + i4(len(raw)) + raw + b_.encode() + i4(len(raw)) + raw + b"@" + i4(2) + b"Q"
+                    want = (one(a, p2, p3), one(b_, p2, p3))
+                    try: got = loads(data, py2str_as_py3str=p2, py3str_as_py2str=p3)
+                    except Exception as e: got = e
+                    if not (isinstance(got, tuple) and got == want and [type(x) for x in got] == [type(x) for x in want]):
+                        bad.append(f"stream {a}+{b_} with equal payloads, p2={p2} p3={p3}: {got!r}, expected {want!r}")
+    # invalid utf-8 stays an error for S/N even after an M item with the same bytes
+    inv = b"\xff\xfe"
+    try:
+        loads(b"\x02M" + i4(2) + inv + b"S" + i4(2) + inv + b"@" + i4(2) + b"Q", py2str_as_py3str=True); bad.append("invalid utf-8 in S accepted after an equal M item")
+    except gb.DataFormatError: pass
+    except Exception as e: bad.append(f"invalid utf-8 in S after M: {type(e).__name__}")
     if loads(b"\x02M" + i4(1) + b"a" + b"Q") != b"a": bad.append("default py2str_as_py3str must be False for loads()")
     for ver in (b"\x01", b"\x03", b"\x00"):
         try:
